@@ -19,9 +19,18 @@ def default_ctx():
     return _DEFCTX[0]
 
 
-def walker(s, ctx=None, tolerant=False, **kw):
+def walker(s, ctx=None, tolerant=False, psopts=None, **kw):
+    """psopts: fields of a non-default ParsingState the walker starts from (LatexWalker(default_parsing_state=..))."""
     if ctx is None:
         ctx = default_ctx()
+    if psopts:
+        from pylatexenc.latexnodes import ParsingState
+        o = dict(psopts)
+        for k in ('latex_group_delimiters', 'latex_inline_math_delimiters', 'latex_display_math_delimiters'):
+            if k in o:
+                o[k] = [tuple(x) for x in o[k]]
+        ctx.freeze()
+        return LatexWalker(s, default_parsing_state=ParsingState(s=s, latex_context=ctx, **o), tolerant_parsing=tolerant, **kw)
     return LatexWalker(s, latex_context=ctx, tolerant_parsing=tolerant, **kw)
 
 
